@@ -11,6 +11,7 @@ import (
 	"os"
 	"sort"
 	"strings"
+	"time"
 
 	"github.com/TeaEntityLab/fpGo/v2/network"
 	"verifharness/lib"
@@ -539,6 +540,208 @@ func nestedRequests(r *lib.Report) int64 {
 	return n
 }
 
+// contextRequests: "for every request made through a SimpleHTTP" includes requests whose context is already
+// done when they are made (cancelled, or past its deadline - TimeoutMillisecond: 1 means one nanosecond) and
+// requests whose context an interceptor gives up half-way: every registered interceptor up to the first
+// failing one still runs exactly once, in order, and before the transport. (Whether the transport still
+// sees a given-up request, and which error comes back, is not demanded.) All interceptor vectors of length
+// 0..3 over {plain, cancelling, failing} x every entry point that takes or makes a context x context state.
+func contextRequests(r *lib.Report) int64 {
+	var n int64
+	kinds := []string{"plain", "cancel", "fail"}
+	entries := []string{"DoNewRequest", "DoNewRequestWithBodyOptions", "DoRequest", "Get(TimeoutMillisecond=1)", "Post(TimeoutMillisecond=1)"}
+	for length := 0; length <= 3; length++ {
+		total := 1
+		for i := 0; i < length; i++ {
+			total *= len(kinds)
+		}
+		for code := 0; code < total; code++ {
+			vec := make([]string, length)
+			for i, c := 0, code; i < length; i, c = i+1, c/len(kinds) {
+				vec[i] = kinds[c%len(kinds)]
+			}
+			for _, entry := range entries {
+				for _, state := range []string{"live", "cancelled", "expired"} {
+					if strings.Contains(entry, "Timeout") && state != "live" {
+						continue
+					}
+					var log []string
+					var cancel context.CancelFunc
+					var ics []*network.Interceptor
+					var want []string
+					failing := ""
+					for i, k := range vec {
+						name := fmt.Sprintf("%s%d", k, i)
+						k := k
+						var ic network.Interceptor = func(req *http.Request) error {
+							log = append(log, name)
+							switch k {
+							case "cancel":
+								if cancel != nil {
+									cancel()
+								}
+							case "fail":
+								return errors.New(name + " failed")
+							}
+							return nil
+						}
+						ics = append(ics, &ic)
+						if failing == "" {
+							want = append(want, name)
+							if k == "fail" {
+								failing = name
+							}
+						}
+					}
+					h := network.NewSimpleHTTPWithClientAndInterceptors(&http.Client{Transport: roundTripFunc(func(req *http.Request) (*http.Response, error) {
+						log = append(log, "T")
+						return &http.Response{StatusCode: 200, Status: "200 OK", Proto: "HTTP/1.1", ProtoMajor: 1, ProtoMinor: 1, Header: http.Header{}, Body: http.NoBody, Request: req}, nil
+					})}, ics...)
+					ctx := context.Background()
+					switch state {
+					case "live":
+						ctx, cancel = context.WithCancel(ctx)
+					case "cancelled":
+						var c context.CancelFunc
+						ctx, c = context.WithCancel(ctx)
+						c()
+					case "expired":
+						var c context.CancelFunc
+						ctx, c = context.WithDeadline(ctx, time.Unix(1, 0))
+						defer c()
+					}
+					var err error
+					n++
+					p := lib.Catch(func() {
+						switch entry {
+						case "DoNewRequest":
+							err = h.DoNewRequest(ctx, nil, "GET", "http://api.test/x").Err
+						case "DoNewRequestWithBodyOptions":
+							err = h.DoNewRequestWithBodyOptions(ctx, nil, "POST", "http://api.test/x", strings.NewReader("b"), "text/plain").Err
+						case "DoRequest":
+							req, _ := http.NewRequestWithContext(ctx, "GET", "http://api.test/x", nil)
+							err = h.DoRequest(req).Err
+						case "Get(TimeoutMillisecond=1)":
+							h.TimeoutMillisecond = 1
+							err = h.Get("http://api.test/x").Err
+						case "Post(TimeoutMillisecond=1)":
+							h.TimeoutMillisecond = 1
+							err = h.Post("http://api.test/x", "text/plain", strings.NewReader("b")).Err
+						}
+					})
+					if cancel != nil {
+						cancel()
+					}
+					fail := ""
+					var gotIcs []string
+					for i, e := range log {
+						if e == "T" {
+							if i != len(log)-1 {
+								fail = fmt.Sprintf("the transport saw the request before the interceptors finished: call log %v", log)
+							}
+						} else {
+							gotIcs = append(gotIcs, e)
+						}
+					}
+					switch {
+					case p != "":
+						fail = "panic: " + p
+					case fail != "":
+					case fmt.Sprint(gotIcs) != fmt.Sprint(want):
+						fail = fmt.Sprintf("interceptor calls %v, registered (up to the first failing one) %v", gotIcs, want)
+					case failing != "" && len(log) > 0 && log[len(log)-1] == "T":
+						fail = fmt.Sprintf("the transport was invoked although %s failed (log %v)", failing, log)
+					case failing != "" && (err == nil || !strings.Contains(err.Error(), failing+" failed")):
+						fail = fmt.Sprintf("the error of %s was not surfaced (Err=%v)", failing, err)
+					}
+					if fail != "" {
+						r.Violation("C18|context|"+state, fmt.Sprintf("%s with a %s context, interceptors %v: %s", entry, state, vec, fail),
+							map[string]interface{}{"entry_point": entry, "context": state, "interceptors": vec, "failure": fail})
+					}
+				}
+			}
+		}
+	}
+	return n
+}
+
+// lateBound: interceptors are registered by pointer and looked at when a request runs: a variable that is
+// registered first and given (or given another) function afterwards is a registered interceptor like any
+// other - it runs in its registration position, its error aborts, and RemoveInterceptor finds it by pointer.
+func lateBound(r *lib.Report) int64 {
+	var n int64
+	for pos := 0; pos < 3; pos++ {
+		for _, mode := range []string{"bound-after-registration", "rebound-after-a-request", "bound-late-and-failing", "bound-late-then-removed"} {
+			var log []string
+			mk := func(name string, fail bool) network.Interceptor {
+				return func(req *http.Request) error {
+					log = append(log, name)
+					req.Header.Add("X-Seen", name)
+					if fail {
+						return errors.New(name + " failed")
+					}
+					return nil
+				}
+			}
+			var late network.Interceptor // nil when it is registered
+			a, b := mk("a", false), mk("b", false)
+			ptrs := []*network.Interceptor{&a, &b}
+			names := []string{"a", "b"}
+			ptrs = append(ptrs[:pos], append([]*network.Interceptor{&late}, ptrs[pos:]...)...)
+			names = append(names[:pos], append([]string{"late"}, names[pos:]...)...)
+			var hdr []string
+			h := network.NewSimpleHTTPWithClientAndInterceptors(&http.Client{Transport: roundTripFunc(func(req *http.Request) (*http.Response, error) {
+				log = append(log, "T")
+				hdr = append([]string{}, req.Header["X-Seen"]...)
+				return &http.Response{StatusCode: 200, Status: "200 OK", Proto: "HTTP/1.1", ProtoMajor: 1, ProtoMinor: 1, Header: http.Header{}, Body: http.NoBody, Request: req}, nil
+			})})
+			fail := ""
+			p := lib.Catch(func() {
+				h.AddInterceptor(ptrs...)
+				late = mk("late", mode == "bound-late-and-failing")
+				want := append([]string{}, names...)
+				switch mode {
+				case "rebound-after-a-request":
+					n++
+					h.Get("http://api.test/x")
+					late = mk("late2", false)
+					want[pos] = "late2"
+				case "bound-late-then-removed":
+					h.RemoveInterceptor(&late)
+					want = append(want[:pos], want[pos+1:]...)
+				case "bound-late-and-failing":
+					want = want[:pos+1]
+				}
+				log, hdr = nil, nil
+				n++
+				err := h.Get("http://api.test/x").Err
+				wantLog := append([]string{}, want...)
+				if mode != "bound-late-and-failing" {
+					wantLog = append(wantLog, "T")
+				}
+				switch {
+				case fmt.Sprint(log) != fmt.Sprint(wantLog):
+					fail = fmt.Sprintf("call log %v, want %v", log, wantLog)
+				case mode == "bound-late-and-failing" && (err == nil || !strings.Contains(err.Error(), "late failed")):
+					fail = fmt.Sprintf("the error of the late-bound interceptor was not surfaced (Err=%v)", err)
+				case mode != "bound-late-and-failing" && err != nil:
+					fail = "request failed: " + err.Error()
+				case mode != "bound-late-and-failing" && fmt.Sprint(hdr) != fmt.Sprint(want):
+					fail = fmt.Sprintf("header changes %v reached the transport, want %v", hdr, want)
+				}
+			})
+			if p != "" {
+				fail = "panic: " + p
+			}
+			if fail != "" {
+				r.Violation("C18|late-bound|"+mode, fmt.Sprintf("AddInterceptor(%v) where the variable 'late' is nil at registration and assigned before the request (%s): %s", names, mode, fail),
+					map[string]interface{}{"position": pos, "mode": mode, "failure": fail})
+			}
+		}
+	}
+	return n
+}
+
 type roundTripFunc func(req *http.Request) (*http.Response, error)
 
 func (f roundTripFunc) RoundTrip(req *http.Request) (*http.Response, error) { return f(req) }
@@ -579,6 +782,8 @@ func main() {
 	}
 	trans += defaultConstructors(r)
 	trans += nestedRequests(r)
+	trans += contextRequests(r)
+	trans += lateBound(r)
 	r.Cov["states"] = len(seen)
 	r.Cov["transitions"] = trans
 	r.Cov["traces_validated_against_impl"] = trans
